@@ -10,6 +10,9 @@ def main():
     from . import core, c11
     V = core.Verdicts("C10")
     extra = c11.run("C10", ("C10.",), nq=300, V=V, evidence=False)     # designed loops: feed / supply / return temperatures, second producer
+    # temperature-dependent heat capacity: mixing conserves energy (enthalpy balance in integer arithmetic, PPRefMix / Trace_Mix)
+    from . import mix
+    extra.update(mix.part(V, "C10", core.tier(), core.seed()))
     rc1 = V.finish()
     rc2 = therm.run_check("C10", RULE, extra_cov=extra, prior_violations=len(V.violations))
     return 1 if (rc1 or rc2) else 0
